@@ -243,6 +243,43 @@ def case_setup_loop(seed, idx, res):
                                       index=idx, mode="setup-loop", loop=L, exitcode=r.exitcode, warnings=ws[:3]))
 
 
+def case_width_frontier(seed, idx, res):
+    """--width stops the first invariant test in the middle of computing a frontier; the frontier is cached per contract.  A later invariant
+    test (fewer paths per state, so it never reaches the width itself) must not get a clean PASS over the partially computed frontier."""
+    import invgen
+
+    rng = random.Random(f"c10-{seed}-width-{idx}")
+    nf = rng.choice([4, 5, 6])
+    fns = [A.Fn(f"f{i}", [], [i, 0, "SSTORE", "STOP"]) for i in range(1, nf + 1)] + [A.Fn("get", [], [0, "SLOAD", 0, "MSTORE", 32, 0, "RETURN"], mutability="view", outputs=[U])]
+    target = A.ContractSpec("W", fns, filename="W.sol")
+    init = target.creation()
+    st = []
+    padded = init + bytes((-len(init)) % 32)
+    for i in range(0, len(padded), 32):
+        st += [("push", int.from_bytes(padded[i : i + 32], "big"), 32), 0x400 + i, "MSTORE"]
+    setup = A.Fn("setUp", [], st + [len(init), 0x400, 0, "CREATE", 0, "SSTORE", "STOP"])
+    view = A.call_raw(invgen.TARGET0, fns[-1].selector, ret=0x500) + ["POP", 0x500, "MLOAD"]
+    # invariant_a forks into two passing paths per state (a fresh symbol is branched on); invariant_z has one path per state and is broken by the last function only
+    inv_a = A.Fn("invariant_a", [], A.svm_create_uint256("b") + [1, "AND", "@odd", "JUMPI"] + view + ["POP", "STOP", ":odd"] + view + ["POP", "STOP"])
+    inv_z = A.Fn("invariant_z", [], view + [nf, "EQ", "@bad", "JUMPI", "STOP", ":bad"] + A.panic(1))
+    spec = A.ContractSpec(f"WT{idx}", [setup, inv_a, inv_z], filename=f"WT{idx}.sol")
+    width = rng.choice([4, 5])
+    out = A.run(A.make_ctx(spec, funsigs=[inv_a.sig, inv_z.sig], overrides=dict(width=width, invariant_depth=1), others=[target]))
+    res["counters"]["evaluations"] += 1
+    res["counters"]["width_frontier_cases"] += 1
+    if out.exception or len(out.results) != 2:
+        res["counters"]["width_frontier_no_result"] += 1
+        return
+    ws = out.warnings()
+    rz = out.results[1]
+    mine = [w for w in ws if ("invariant_z" in w and ("--width" in w or "incomplete" in w)) or "partially computed" in w]
+    res["distinct"].append(f"width-frontier:{idx}")
+    res["counters"]["cut_events_possible"] += 1
+    if rz.exitcode == 0 and not mine:
+        res["violations"].append(dict(what="clean PASS of an invariant test that ran over a frontier left partially computed by the --width stop of an earlier test", key="silent-cut:width-partial-frontier",
+                                      index=idx, mode="width-frontier", width=width, functions=nf, verdicts=[r.exitcode for r in out.results], paths=[r.num_paths for r in out.results], warnings=ws[:4]))
+
+
 def case_setup_stuck(seed, idx, res):
     """setUp() gets stuck (unsupported opcode) inside a nested call, or at top level: the state it has built so far is not the state after
     setUp.  A test that only passes on the truncated state must not be reported as a clean PASS."""
@@ -281,6 +318,8 @@ def worker(task):
             case_setup_loop(seed, idx, res)
         elif kind == "setupstuck":
             case_setup_stuck(seed, idx, res)
+        elif kind == "widthfrontier":
+            case_width_frontier(seed, idx, res)
         else:
             case_two_contracts(seed, idx, res)
     return res
@@ -296,7 +335,7 @@ def main():
     if run.replay:
         w = json.load(open(run.replay))["witness"]
         res = new_result()
-        {"regular": case_regular, "invariant": case_invariant, "setup-loop": case_setup_loop, "setup-stuck": case_setup_stuck}.get(w.get("mode"), case_two_contracts)(run.seed, w["index"], res)
+        {"regular": case_regular, "invariant": case_invariant, "setup-loop": case_setup_loop, "setup-stuck": case_setup_stuck, "width-frontier": case_width_frontier}.get(w.get("mode"), case_two_contracts)(run.seed, w["index"], res)
         run.merge(res)
         run.finish()
     tasks = []
@@ -307,6 +346,7 @@ def main():
     tasks += [("two", i, i + 1, run.seed) for i in range(run.n(4, 40))]
     tasks += [("setup", i, i + 2, run.seed) for i in range(0, run.n(8, 100), 2)]
     tasks += [("setupstuck", i, i + 2, run.seed) for i in range(0, run.n(4, 20), 2)]
+    tasks += [("widthfrontier", i, i + 2, run.seed) for i in range(0, run.n(4, 40), 2)]
     run_pool(run, worker, tasks, soft_timeout=900)
     run.require("tests", 150)
     run.require("cut_events_possible", 30)
